@@ -10,12 +10,12 @@ import (
 // canonical, defaults, normalize, path resolution) on pre-parsed documents.
 func tcLoad(env types.Mapping, opts func(*Options), docs ...map[string]any) (map[string]any, error) {
 	var files []types.ConfigFile
-	names := []string{"/w/compose.yaml", "/w/override.yaml", "/w/third.yaml"}
+	names := []string{vrtRoot() + "/w/compose.yaml", vrtRoot() + "/w/override.yaml", vrtRoot() + "/w/third.yaml"}
 	for i, d := range docs {
 		files = append(files, types.ConfigFile{Filename: names[i], Config: d})
 	}
 	return LoadModelWithContext(context.Background(), types.ConfigDetails{
-		WorkingDir:  "/w",
+		WorkingDir:  vrtRoot() + "/w",
 		ConfigFiles: files,
 		Environment: env,
 	}, func(o *Options) {
